@@ -14,5 +14,5 @@ fn regex_visit<const K: u8, const OWNED: bool>() {
     if let Ok(re) = &r { if K == 0 { assert!(re.is_match("x-el") && !re.is_match("div"), "C14: an accepted pattern is the pattern that was written"); } }
     std::mem::forget(r);
 }
-macro_rules! rv_h { ($($n:ident: $k:expr, $o:expr;)*) => { $(#[kani::proof] #[kani::unwind(12)] #[kani::stub(std::ptr::drop_in_place, no_drop)] #[kani::stub(core::ptr::drop_glue, no_glue)] #[kani::stub(alloc::fmt::format, fmt_marker)] fn $n() { regex_visit::<$k, $o>() })* } }
+macro_rules! rv_h { ($($n:ident: $k:expr, $o:expr;)*) => { $(#[kani::proof] #[kani::unwind(12)] #[kani::stub(std::ptr::drop_in_place, no_drop)] #[kani::stub(core::ptr::drop_glue, no_glue)] #[kani::stub(std::vec::Vec::extend_from_slice, extend_from_slice_model)] #[kani::stub(alloc::fmt::format, fmt_marker)] fn $n() { regex_visit::<$k, $o>() })* } }
 rv_h! { regex_visit_valid_str: 0, false; regex_visit_invalid_str: 1, false; regex_visit_valid_string: 2, true; regex_visit_invalid_string: 3, true; }
